@@ -229,13 +229,21 @@ fn gen(g: &mut G, thorough: bool) -> Plan {
                     let mh = mh.min(total / 8);
                     let mut w = b"HTTP/1.1 200 OK\r\n".to_vec();
                     let mut i = 0;
-                    let same_name = g.chance(1, 2);
+                    // 0 distinct names, 1 one name repeated, 2 field lines whose name is not a token (a client
+                    // that drops such lines must still count them)
+                    let name_kind = g.below(3);
+                    let same_name = name_kind == 1;
                     if same_name {
                         g.probe("endless-fields-one-repeated-name");
+                    }
+                    if name_kind == 2 {
+                        g.probe("endless-fields-with-invalid-names");
                     }
                     while w.len() < total {
                         if same_name {
                             w.extend_from_slice(b"Set-Cookie: v\r\n");
+                        } else if name_kind == 2 {
+                            w.extend_from_slice(if i % 3 == 0 { &b"bad name: v\r\n"[..] } else { &b"(x)@y: v\r\n"[..] });
                         } else {
                             w.extend_from_slice(format!("X-{}: v\r\n", i).as_bytes());
                         }
